@@ -10,6 +10,7 @@ def value_corpus(F, tier, name):
     recs += gen.g_midpoints(F, rng, tier, nexp=60 if q else None, nrand=1 if q else 6)
     recs += gen.g_floats_exact(F, rng, 100 if q else 2000)
     recs += gen.g_seams(F, rng)
+    recs += gen.g_short_ties(F, rng, 1 if q else 20)
     recs += gen.g_extremes(F, rng, big=20000 if q else 1000000)
     recs += gen.g_runs(F, rng, 150 if q else 3000)
     return gen.normalise(gen.dedup(recs))
@@ -376,6 +377,7 @@ def c05(tier):
         inputs += gen.g_plain(F, rng, 200 if q else 3000)
         inputs += gen.g_midpoints(F, rng, tier, nexp=30 if q else 300, nrand=1 if q else 3)
         inputs += gen.g_seams(F, rng)
+        inputs += gen.g_short_ties(F, rng, 1 if q else 10)
         inputs += gen.g_extremes(F, rng, big=20000)
         inputs += gen.g_runs(F, rng, 100 if q else 2000)
     inputs = gen.normalise(gen.dedup(inputs))
